@@ -77,18 +77,21 @@ end SigModel.Props.C03
 ## C03 kernel slice "bloom": the BLOOM skip rule and the DICTIONARY search path (Model/Bloom.lean)
 
 The block bloom of a column holds, per stored string value, the keys `addedKeys v` (full value, pieces between single
-spaces, ASCII-lower-cased copies).  A query probes the keys of `MatchFilter.probe` / `exprProbe`; the block is dropped
-when the check (`passRotated` for rotated segments, `passUnrotated` for open ones) fails.  Soundness = a block that
-holds a record of the answer is never dropped, for EVERY filter that behaves like a bloom (`BloomLike` holding at
-least the added keys).  Decided here:
-* single-token words (And/Or filters of any number of words), whole-value phrases, string equality: SOUND;
-* a phrase of several tokens strictly inside a longer value: UNSOUND (`bloom_prune_phrase_counterexample`; replayed on
-  the engine: `"foo bar"` misses m="x foo bar y" unless another record of the same block holds the phrase as a whole value);
-* the empty phrase on a value ending in a space: UNSOUND (`bloom_prune_empty_needle_counterexample`);
-* negated free text on OPEN segments: UNSOUND (`unrotated_negated_prune_counterexample`: `DoCMICheckForUnrotated` lacks
-  the negate test that `doCmiChecks` has);
-* the dictionary path selects exactly the records the per-record path selects (`dictSearch_eq_perRecord`), for a filter
-  WITH words; a filter without words selects nothing through the dictionary and everything per record.
+spaces, ASCII-lower-cased copies).  A query probes the keys of `MatchFilter.probe` / `exprProbe` / `boolProbe`; the block
+is dropped when the check (`passRotated` for rotated segments, `passUnrotated` for open ones) fails.  Soundness = a block
+that holds a record of the answer is never dropped, for EVERY filter that behaves like a bloom (`BloomLike` holding at
+least the added keys).
+
+The model mirrors the code WITH the repairs c03-A … c03-E (/verif/build/patches).  With them the rule is sound at full
+strength: And/Or filters of words of any number of tokens, phrases of any shape (`PhrasePruneSound` is a theorem now),
+string equality, boolean comparisons, negated filters on rotated AND open segments; and a dictionary-encoded block
+answers a negated filter like a plain one.  The former behaviour is kept under …Old definitions with the counterexample
+theorems that were the defects (each replayed on the engine, see known_findings.txt):
+* `bloom_prune_phrase_counterexample_old`   `"foo bar"` misses m="x foo bar y" (one key for the whole phrase);
+* `bloom_prune_empty_needle_counterexample_old`  `""` misses m="abc " ;
+* `unrotated_negated_prune_counterexample_old`  `NOT zzz` loses the blocks without zzz while the segment is open;
+* `bool_probe_counterexample_old`  `b=true` finds nothing (the text "true" is probed, boolean columns have no bloom);
+* `filterDictBlockOld_negated_counterexample`  `NOT zzz` returns the events WITH zzz (dictionary block, no record loop).
 -/
 namespace SigModel.Props.C03
 open SigModel.Bloom
@@ -102,25 +105,33 @@ def wordFilter (w : Bytes) : MatchFilter :=
 def phraseFilter (p : Bytes) : MatchFilter :=
   { words := splitSpace p, wordsOrig := [], op := .and, phrase := p, phraseOrig := [], isPhrase := true, negate := false }
 
-/-- every word is one token: non-empty, no space, and (case-insensitive search) lower-cased as the grammar does -/
-def SingleTokens (ci : Bool) (ws : List Bytes) : Prop :=
-  ∀ w ∈ ws, w ≠ [] ∧ 32 ∉ w ∧ (ci = true → hasUpper w = false)
+/-- a word that is not made of spaces only (it has a non-empty piece) -/
+def NotBlank (w : Bytes) : Prop := ∃ s ∈ splitSpace w, s ≠ []
 
-/-- C03.3 (words, full filter) a block holding a record that satisfies an And/Or filter of single-token words is kept,
-on rotated and on open segments, whichever columns are consulted, for any bloom-like filter. -/
+/-- a key of the repaired probe is a non-empty piece of one of the former keys; such a piece is found in the block as
+soon as the former key is a needle that the record matcher finds in the value -/
+theorem piece_found (ci : Bool) (v k x : Bytes) (b : BloomLike) (cols : Cols) (p : Probe)
+    (hb : b.holds (addedKeys v)) (hc : some b ∈ cols) (hlow : ci = true → hasUpper k = false)
+    (hsub : subWord ci v k = true) (hx : x ∈ splitSpace k) (hne : x ≠ []) : needleInCols cols p x = true :=
+  needleInCols_of_test cols b p x hc (hb x (pieces_added ci v k hlow hsub x hx hne))
+
+/-- C03.3 (words, full filter) a block holding a record that satisfies an And/Or filter of match words — of ANY number
+of tokens each — is kept, on rotated and on open segments, whichever columns are consulted, for any bloom-like filter.
+(Case-insensitive search: lower-cased words, as the query grammar produces them; Or filters: no word made of spaces only.) -/
 theorem bloom_prune_sound_words (mf : MatchFilter) (ci : Bool) (v : Bytes) (b : BloomLike) (cols : Cols) (allCols : Bool)
     (hb : b.holds (addedKeys v)) (hc : some b ∈ cols) (hph : mf.isPhrase = false)
-    (hw : SingleTokens ci mf.words) (h : matchRaw mf ci (.str v) = true) :
-    passRotated allCols cols (mf.probe ci) false = true ∧ passUnrotated cols (mf.probe ci) = true := by
-  -- the probe
+    (hlow : ci = true → ∀ w ∈ mf.words, hasUpper w = false)
+    (hor : mf.op = .or → ∀ w ∈ mf.words, NotBlank w)
+    (h : matchRaw mf ci (.str v) = true) :
+    passRotated allCols cols (mf.probe ci) false = true ∧ passUnrotated cols (mf.probe ci) false = true := by
+  obtain ⟨hwc, hks⟩ := wordsLoop_spec ci (mf.wordsOrig.length == mf.words.length) mf.wordsOrig mf.words 0 [] [] false
   have hp : mf.probe ci =
-      { keys := (wordsLoop ci (mf.wordsOrig.length == mf.words.length) mf.wordsOrig mf.words 0 ([], [], false)).1,
+      { keys := wordsOfKeys (wordsLoop ci (mf.wordsOrig.length == mf.words.length) mf.wordsOrig mf.words 0 ([], [], false)).1,
         orig := (wordsLoop ci (mf.wordsOrig.length == mf.words.length) mf.wordsOrig mf.words 0 ([], [], false)).2.1,
         wildcard := (wordsLoop ci (mf.wordsOrig.length == mf.words.length) mf.wordsOrig mf.words 0 ([], [], false)).2.2,
         op := if (wordsLoop ci (mf.wordsOrig.length == mf.words.length) mf.wordsOrig mf.words 0 ([], [], false)).1.length == 1
               then .and else mf.op } := by
-    simp [MatchFilter.probe, hph]
-  obtain ⟨hwc, hks⟩ := wordsLoop_spec ci (mf.wordsOrig.length == mf.words.length) mf.wordsOrig mf.words 0 [] [] false
+    simp [MatchFilter.probe, MatchFilter.probeOld, hph]
   generalize hr : wordsLoop ci (mf.wordsOrig.length == mf.words.length) mf.wordsOrig mf.words 0 ([], [], false) = r at hp hwc hks
   obtain ⟨ks, os, wc⟩ := r
   simp only at hp hwc hks
@@ -137,15 +148,24 @@ theorem bloom_prune_sound_words (mf : MatchFilter) (ci : Bool) (v : Bytes) (b : 
     have hmem : ∀ x, x ∈ ks ↔ x ∈ mf.words := by
       intro x; rw [hks x]; simp only [List.not_mem_nil, false_or]
       exact ⟨fun h => h.1, fun h => ⟨h, hnostar x h⟩⟩
-    -- a word found in the value is found in the block
-    have hE : ∀ k ∈ mf.words, subWord ci v k = true →
-        needleInCols cols { keys := ks, orig := os, wildcard := false, op := if ks.length == 1 then Op.and else mf.op } k = true := by
-      intro k hk hsub
-      obtain ⟨h1, h2, h3⟩ := hw k hk
-      exact needleInCols_of_test cols b _ k hc (hb k (key_added_token ci v k h1 h2 h3 hsub))
-    simp only [passRotated, passUnrotated, Bool.false_or, Bool.false_eq_true, if_false]
+    generalize hP : ({ keys := wordsOfKeys ks, orig := os, wildcard := false,
+                       op := if (ks.length == 1) = true then Op.and else mf.op } : Probe) = P
+    have hPk : P.keys = wordsOfKeys ks := by rw [← hP]
+    have hPw : P.wildcard = false := by rw [← hP]
+    have hPo : P.op = if (ks.length == 1) = true then Op.and else mf.op := by rw [← hP]
+    -- every piece of a word found in the value is found in the block
+    have hE : ∀ k ∈ mf.words, subWord ci v k = true → ∀ x ∈ splitSpace k, x ≠ [] → needleInCols cols P x = true := by
+      intro k hk hsub x hx hne
+      exact piece_found ci v k x b cols P hb hc (fun e => hlow e k hk) hsub hx hne
+    simp only [passRotated, passUnrotated, hPw, Bool.false_or, Bool.false_eq_true, if_false, hPk]
     unfold matchRaw at h
     simp only [hph, Bool.false_eq_true, if_false] at h
+    -- "all keys found" when every word is found in the value
+    have hAllOf : (∀ k ∈ mf.words, subWord ci v k = true) → (wordsOfKeys ks).all (needleInCols cols P) = true := by
+      intro hall
+      rw [List.all_eq_true]; intro x hx
+      obtain ⟨k, hk, hxk, hne⟩ := (mem_wordsOfKeys ks x).1 hx
+      exact hE k ((hmem k).1 hk) (hall k ((hmem k).1 hk)) x hxk hne
     cases hop : mf.op with
     | and =>
       have hall : ∀ k ∈ mf.words, subWord ci v k = true := by
@@ -155,13 +175,9 @@ theorem bloom_prune_sound_words (mf : MatchFilter) (ci : Bool) (v : Bytes) (b : 
         · have he' : mf.words.isEmpty = false := by simpa using he
           simp only [he', Bool.false_eq_true, if_false, hop, List.all_eq_true] at h
           exact h
-      have hAll : ks.all (needleInCols cols { keys := ks, orig := os, wildcard := false, op := Op.and }) = true := by
-        rw [List.all_eq_true]; intro k hk
-        have := hE k ((hmem k).1 hk) (hall k ((hmem k).1 hk))
-        simpa [hop] using this
-      simp only [ite_self]
-      rw [forColLoop_and, allColLoop_and]
-      cases allCols <;> simp [hAll]
+      have hopP : P.op = Op.and := by rw [hPo, hop]; simp
+      rw [hopP, forColLoop_and, allColLoop_and]
+      cases allCols <;> simp [hAllOf hall]
     | or =>
       by_cases he : mf.words.isEmpty = true
       · have hw0 : mf.words = [] := by simpa using he
@@ -170,39 +186,43 @@ theorem bloom_prune_sound_words (mf : MatchFilter) (ci : Bool) (v : Bytes) (b : 
           | nil => rfl
           | cons a r => have := (hmem a).1 (by simp); rw [hw0] at this; simp at this
         subst hk0
-        cases allCols <;> simp [forColLoop, allColLoop]
+        cases allCols <;> simp [wordsOfKeys, forColLoop, allColLoop]
       · have he' : mf.words.isEmpty = false := by simpa using he
         simp only [he', Bool.false_eq_true, if_false, hop, List.any_eq_true] at h
         obtain ⟨w0, hw0, hsub⟩ := h
         have hw0k : w0 ∈ ks := (hmem w0).2 hw0
-        have hEw := hE w0 hw0 hsub
         by_cases h1 : (ks.length == 1) = true
-        · -- one key: probed as And; the key is the matching word
-          simp only [h1, if_true] at hEw ⊢
-          have hAll : ks.all (needleInCols cols { keys := ks, orig := os, wildcard := false, op := Op.and }) = true := by
-            rw [List.all_eq_true]; intro k hk
+        · -- one former key: probed as And; it is the matching word
+          have hopP : P.op = Op.and := by rw [hPo]; simp [h1]
+          have hall : (wordsOfKeys ks).all (needleInCols cols P) = true := by
+            rw [List.all_eq_true]; intro x hx
+            obtain ⟨k, hk, hxk, hne⟩ := (mem_wordsOfKeys ks x).1 hx
             have hlen : ks.length = 1 := by simpa using h1
-            match ks, hlen, hk, hw0k with
-            | [a], _, hk, hw0k =>
-              simp at hk hw0k; subst hk; subst hw0k; exact hEw
-          rw [forColLoop_and, allColLoop_and]
-          cases allCols <;> simp [hAll]
+            have hkw : k = w0 := by
+              match ks, hlen, hk, hw0k with
+              | [a], _, hk, hw0k => simp at hk hw0k; rw [hk, hw0k]
+            subst hkw
+            exact hE k hw0 hsub x hxk hne
+          rw [hopP, forColLoop_and, allColLoop_and]
+          cases allCols <;> simp [hall]
         · have h1' : (ks.length == 1) = false := by simpa using h1
-          simp only [h1', Bool.false_eq_true, if_false, hop] at hEw ⊢
-          have hAny : ks.any (needleInCols cols { keys := ks, orig := os, wildcard := false, op := Op.or }) = true := by
-            rw [List.any_eq_true]; exact ⟨w0, hw0k, hEw⟩
-          rw [forColLoop_or, allColLoop_or_any _ _ _ hAny]
+          have hopP : P.op = Op.or := by rw [hPo, hop]; simp [h1']
+          obtain ⟨s, hs, hsne⟩ := hor hop w0 hw0
+          have hAny : (wordsOfKeys ks).any (needleInCols cols P) = true := by
+            rw [List.any_eq_true]
+            exact ⟨s, (mem_wordsOfKeys ks s).2 ⟨w0, hw0k, hs, hsne⟩, hE w0 hw0 hsub s hs hsne⟩
+          rw [hopP, forColLoop_or, allColLoop_or_any _ _ _ hAny]
           cases allCols <;> simp
 
-/-- C03.3 (one word, case-sensitive and case-insensitive) `IsSubWordPresent(v, w)` ⇒ the block is kept -/
+/-- C03.3 (one word, case-sensitive and case-insensitive, ANY word) `IsSubWordPresent(v, w)` ⇒ the block is kept -/
 theorem bloom_prune_sound_word (ci : Bool) (v w : Bytes) (b : BloomLike) (cols : Cols) (allCols : Bool)
-    (hb : b.holds (addedKeys v)) (hc : some b ∈ cols)
-    (hne : w ≠ []) (hsp : 32 ∉ w) (hlow : ci = true → hasUpper w = false)
+    (hb : b.holds (addedKeys v)) (hc : some b ∈ cols) (hlow : ci = true → hasUpper w = false)
     (h : subWord ci v w = true) :
     passRotated allCols cols ((wordFilter w).probe ci) false = true ∧
-    passUnrotated cols ((wordFilter w).probe ci) = true := by
+    passUnrotated cols ((wordFilter w).probe ci) false = true := by
   apply bloom_prune_sound_words (wordFilter w) ci v b cols allCols hb hc rfl
-  · intro x hx; simp [wordFilter] at hx; subst hx; exact ⟨hne, hsp, hlow⟩
+  · intro e x hx; simp [wordFilter] at hx; subst hx; exact hlow e
+  · intro e; simp [wordFilter] at e
   · simp [matchRaw, wordFilter, h]
 
 /-- the case-insensitive rule needs the lower-cased needle the query grammar produces: a needle with upper-case bytes
@@ -215,48 +235,98 @@ theorem bloom_ci_needs_lowered_needle :
   have := h [70, 79, 79] [70, 111, 111] (exact (addedKeys [70, 79, 79])) (exact_holds _) (by decide)
   revert this; decide
 
-/-- C03.3 (phrase) FULL strength: every phrase found in a stored value keeps the block.  FALSE, see below. -/
+/-- C03.3 (phrase) every phrase filter (And or Or, any phrase: one word, several words, empty, leading / trailing /
+double spaces) keeps a block that holds a value in which the record matcher finds the phrase -/
+theorem bloom_prune_sound_phrase (mf : MatchFilter) (ci : Bool) (v : Bytes) (b : BloomLike) (cols : Cols) (allCols : Bool)
+    (hb : b.holds (addedKeys v)) (hc : some b ∈ cols) (hph : mf.isPhrase = true)
+    (hlow : ci = true → hasUpper mf.phrase = false)
+    (h : subWord ci v mf.phrase = true) :
+    passRotated allCols cols (mf.probe ci) false = true ∧ passUnrotated cols (mf.probe ci) false = true := by
+  by_cases hs : hasStar mf.phrase = true
+  · simp [MatchFilter.probe, MatchFilter.probeOld, hph, hs, passRotated, passUnrotated]
+  · have hs' : hasStar mf.phrase = false := by simpa using hs
+    simp only [MatchFilter.probe, MatchFilter.probeOld, hph, hs', if_true, Bool.false_eq_true, if_false, passRotated,
+      passUnrotated, Bool.false_or]
+    generalize hP : ({ keys := wordsOfKeys [mf.phrase],
+                       orig := if (ci && !mf.phraseOrig.isEmpty) = true then [(mf.phrase, mf.phraseOrig)] else [],
+                       wildcard := false, op := mf.op } : Probe) = P
+    have hall : (wordsOfKeys [mf.phrase]).all (needleInCols cols P) = true := by
+      rw [List.all_eq_true]; intro x hx
+      obtain ⟨k, hk, hxk, hne⟩ := (mem_wordsOfKeys _ x).1 hx
+      simp at hk; subst hk
+      exact piece_found ci v _ x b cols P hb hc hlow h hxk hne
+    cases hop : mf.op with
+    | and =>
+      rw [forColLoop_and, allColLoop_and]
+      cases allCols <;> simp [hall]
+    | or =>
+      rw [forColLoop_or]
+      cases hk : wordsOfKeys [mf.phrase] with
+      | nil => cases allCols <;> simp [allColLoop]
+      | cons a r =>
+        have ha : needleInCols cols P a = true := by
+          rw [hk] at hall; simp only [List.all_cons, Bool.and_eq_true] at hall; exact hall.1
+        rw [allColLoop_or_any _ _ _ (by simp [ha])]
+        cases allCols <;> simp
+
+/-- C03.3 (phrase) FULL strength: every phrase found in a stored value keeps the block (rotated and open segments) -/
 def PhrasePruneSound : Prop :=
   ∀ (ci : Bool) (v p : Bytes) (b : BloomLike), b.holds (addedKeys v) → (ci = true → hasUpper p = false) →
     subWord ci v p = true →
-    passRotated true [some b] ((phraseFilter p).probe ci) false = true ∧ passUnrotated [some b] ((phraseFilter p).probe ci) = true
+    passRotated true [some b] ((phraseFilter p).probe ci) false = true ∧
+    passUnrotated [some b] ((phraseFilter p).probe ci) false = true
 
-/-- the phrase "foo bar" is found by the record matcher in the value "x foo bar y", but it is probed as ONE key and the
-writer added only the whole value and the single tokens: the block is dropped (rotated and open). -/
-theorem bloom_prune_phrase_counterexample : ¬ PhrasePruneSound := by
+/-- … and with patch c03-A it HOLDS -/
+theorem bloom_prune_phrase_sound : PhrasePruneSound := by
+  intro ci v p b hb hlow h
+  exact bloom_prune_sound_phrase (phraseFilter p) ci v b [some b] true hb (by simp) rfl hlow h
+
+/-- the same statement for the code BEFORE patch c03-A (one key for the whole phrase) -/
+def PhrasePruneSoundOld : Prop :=
+  ∀ (ci : Bool) (v p : Bytes) (b : BloomLike), b.holds (addedKeys v) → (ci = true → hasUpper p = false) →
+    subWord ci v p = true →
+    passRotated true [some b] ((phraseFilter p).probeOld ci) false = true
+
+/-- OLD code: the phrase "foo bar" is found by the record matcher in the value "x foo bar y", but it was probed as ONE
+key and the writer adds only the whole value and the single tokens: the block was dropped. -/
+theorem bloom_prune_phrase_counterexample_old : ¬ PhrasePruneSoundOld := by
   intro h
-  have := (h false [120, 32, 102, 111, 111, 32, 98, 97, 114, 32, 121] [102, 111, 111, 32, 98, 97, 114]
-    (exact (addedKeys [120, 32, 102, 111, 111, 32, 98, 97, 114, 32, 121])) (exact_holds _) (by simp) (by decide)).1
+  have := h false [120, 32, 102, 111, 111, 32, 98, 97, 114, 32, 121] [102, 111, 111, 32, 98, 97, 114]
+    (exact (addedKeys [120, 32, 102, 111, 111, 32, 98, 97, 114, 32, 121])) (exact_holds _) (by simp) (by decide)
   revert this; decide
 
-/-- the EMPTY phrase is "found" by `IsSubWordPresent` after a trailing space ("abc " — the engine answers `""` with such
-events when the micro-index is unavailable), but the empty last piece is not added -/
-theorem bloom_prune_empty_needle_counterexample :
+/-- … the repaired probe keeps that very block -/
+example : passRotated true [some (exact (addedKeys [120, 32, 102, 111, 111, 32, 98, 97, 114, 32, 121]))]
+    ((phraseFilter [102, 111, 111, 32, 98, 97, 114]).probe false) false = true := by decide
+
+/-- OLD code: the EMPTY phrase is "found" by `IsSubWordPresent` after a trailing space ("abc "), but the key "" is not
+added for an empty LAST piece -/
+theorem bloom_prune_empty_needle_counterexample_old :
     ¬ (∀ (v : Bytes) (b : BloomLike), b.holds (addedKeys v) → subWord false v [] = true →
-        passRotated true [some b] ((phraseFilter []).probe false) false = true) := by
+        passRotated true [some b] ((phraseFilter []).probeOld false) false = true) := by
   intro h
   have := h [97, 98, 99, 32] (exact (addedKeys [97, 98, 99, 32])) (exact_holds _) (by decide)
   revert this; decide
 
-/-- the phrases the add side covers: one token, or the whole value -/
+/-- the phrases the OLD probe was right about: one token, or the whole value -/
 def PhraseGuard (v p : Bytes) : Prop := (p ≠ [] ∧ 32 ∉ p) ∨ p.length = v.length
 
 instance (v p : Bytes) : Decidable (PhraseGuard v p) := by unfold PhraseGuard; exact inferInstance
 
-/-- C03.3 (phrase, partial) under the guard the phrase rule is sound — for every phrase filter (And or Or), rotated and open -/
-theorem bloom_prune_phrase_partial (mf : MatchFilter) (ci : Bool) (v : Bytes) (b : BloomLike) (cols : Cols) (allCols : Bool)
+/-- OLD code, partial: under the guard the one-key phrase probe was sound -/
+theorem bloom_prune_phrase_partial_old (mf : MatchFilter) (ci : Bool) (v : Bytes) (b : BloomLike) (cols : Cols) (allCols : Bool)
     (hb : b.holds (addedKeys v)) (hc : some b ∈ cols) (hph : mf.isPhrase = true)
     (hg : PhraseGuard v mf.phrase) (hlow : ci = true → hasUpper mf.phrase = false)
     (h : subWord ci v mf.phrase = true) :
-    passRotated allCols cols (mf.probe ci) false = true ∧ passUnrotated cols (mf.probe ci) = true := by
+    passRotated allCols cols (mf.probeOld ci) false = true ∧ passUnrotatedOld cols (mf.probeOld ci) = true := by
   have hkey : mf.phrase ∈ addedKeys v := by
     rcases hg with ⟨h1, h2⟩ | h1
     · exact key_added_token ci v mf.phrase h1 h2 hlow h
     · exact key_added_whole ci v mf.phrase h1 hlow h
   by_cases hs : hasStar mf.phrase = true
-  · simp [MatchFilter.probe, hph, hs, passRotated, passUnrotated]
+  · simp [MatchFilter.probeOld, hph, hs, passRotated, passUnrotatedOld]
   · have hs' : hasStar mf.phrase = false := by simpa using hs
-    simp only [MatchFilter.probe, hph, hs', if_true, Bool.false_eq_true, if_false, passRotated, passUnrotated, Bool.false_or]
+    simp only [MatchFilter.probeOld, hph, hs', if_true, Bool.false_eq_true, if_false, passRotated, passUnrotatedOld, Bool.false_or]
     generalize hP : ({ keys := [mf.phrase], orig := if (ci && !mf.phraseOrig.isEmpty) = true then [(mf.phrase, mf.phraseOrig)] else [],
                        wildcard := false, op := mf.op } : Probe) = P
     have hE : needleInCols cols P mf.phrase = true := needleInCols_of_test cols b P _ hc (hb _ hkey)
@@ -274,9 +344,12 @@ example : PhraseGuard [120, 32, 102, 111, 111, 32, 98, 97, 114, 32, 121] [102, 1
 example : PhraseGuard [120, 32, 102, 111, 111] [120, 32, 102, 111, 111] ∧ subWord false [120, 32, 102, 111, 111] [120, 32, 102, 111, 111] = true := by decide
 /-- … and it excludes the counterexample -/
 example : ¬ PhraseGuard [120, 32, 102, 111, 111, 32, 98, 97, 114, 32, 121] [102, 111, 111, 32, 98, 97, 114] := by decide
-/-- the rule is not vacuous: a block without the word IS dropped ("zzz" against a block holding "x foo bar y") -/
+/-- the rule is not vacuous: a block without the word IS dropped ("zzz" against a block holding "x foo bar y"), and so
+is a block holding only one word of the phrase ("foo zzz") -/
 example : passRotated true [some (exact (addedKeys [120, 32, 102, 111, 111, 32, 98, 97, 114, 32, 121]))]
     ((wordFilter [122, 122, 122]).probe false) false = false := by decide
+example : passRotated true [some (exact (addedKeys [120, 32, 102, 111, 111, 32, 98, 97, 114, 32, 121]))]
+    ((phraseFilter [102, 111, 111, 32, 122, 122, 122]).probe false) false = false := by decide
 
 /-- C03.3 (string equality `col = "value"`) a block holding an equal value (equal up to ASCII case when the comparison
 is case-insensitive) is kept -/
@@ -284,7 +357,7 @@ theorem bloom_prune_sound_eq (ci : Bool) (v val orig : Bytes) (hasOrig : Bool) (
     (hb : b.holds (addedKeys v)) (hc : some b ∈ cols) (hlow : ci = true → hasUpper val = false)
     (h : exprRaw true ci val (.str v) = true) :
     passRotated allCols cols (exprProbe true (hasStar val) val hasOrig orig ci) false = true ∧
-    passUnrotated cols (exprProbe true (hasStar val) val hasOrig orig ci) = true := by
+    passUnrotated cols (exprProbe true (hasStar val) val hasOrig orig ci) false = true := by
   simp only [exprRaw, if_true, Bool.and_eq_true, beq_iff_eq] at h
   obtain ⟨_, hcs, hcis⟩ := bytesEq_spec ci v val h.2
   have hkey : val ∈ addedKeys v := by
@@ -314,24 +387,42 @@ theorem bloom_prune_sound_eq (ci : Bool) (v val orig : Bytes) (hasOrig : Bool) (
 /-- a record belongs to the answer of a (possibly negated) match filter -/
 def inAnswer (mf : MatchFilter) (ci : Bool) (v : Bytes) : Bool := matchRaw mf ci (.str v) != mf.negate
 
-/-- negated filters: the rotated-segment check never drops a block (`doCmiChecks` tests `NegateMatch`) -/
-theorem bloom_prune_negated_rotated (allCols : Bool) (cols : Cols) (p : Probe) : passRotated allCols cols p true = true := by
-  simp [passRotated]
+/-- negated filters: neither check drops a block (rotated: `doCmiChecks`; open: `DoCMICheckForUnrotated` with patch c03-B) -/
+theorem bloom_prune_negated (allCols : Bool) (cols : Cols) (p : Probe) :
+    passRotated allCols cols p true = true ∧ passUnrotated cols p true = true := by
+  simp [passRotated, passUnrotated]
 
-/-- negated filters on OPEN segments: `DoCMICheckForUnrotated` has no such test; a block none of whose records holds the
-word — every record of it belongs to the answer of `NOT zzz` — is dropped.  Replayed on the engine (plain, non-dictionary
-columns): `NOT zzz` loses the events of such a block while the segment is open and finds them after rotation. -/
-theorem unrotated_negated_prune_counterexample :
+/-- OLD code (before c03-B): `DoCMICheckForUnrotated` had no negate test; a block none of whose records holds the word —
+every record of it belongs to the answer of `NOT zzz` — was dropped while the segment was open. -/
+theorem unrotated_negated_prune_counterexample_old :
     ¬ (∀ (mf : MatchFilter) (ci : Bool) (v : Bytes) (b : BloomLike), b.holds (addedKeys v) → inAnswer mf ci v = true →
-        passUnrotated [some b] (mf.probe ci) = true) := by
+        passUnrotatedOld [some b] (mf.probe ci) = true) := by
   intro h
   -- NOT zzz against a block holding "ccc"
   have := h { wordFilter [122, 122, 122] with negate := true } false [99, 99, 99] (exact (addedKeys [99, 99, 99]))
     (exact_holds _) (by decide)
   revert this; decide
 
-/-- … sound on open segments too when the filter is not negated (the two theorems above give it for words and phrases) -/
 example : inAnswer (wordFilter [99, 99, 99]) false [99, 99, 99] = true := by decide
+
+/-- C03.3 (boolean comparison, patch c03-C) nothing is probed: the block is kept whatever micro-indexes it has -/
+theorem bool_probe_sound (allCols : Bool) (cols : Cols) :
+    passRotated allCols cols boolProbe false = true ∧ passUnrotated cols boolProbe false = true := by
+  cases allCols <;> simp [passRotated, passUnrotated, boolProbe, forColLoop, allColLoop]
+
+/-- OLD code (before c03-C): `b=true` probed the TEXT "true".  A boolean column has no bloom micro-index (`none`), and
+where a dictionary block's filter exists it holds the byte 0/1: either way the block with a matching record was dropped. -/
+theorem bool_probe_counterexample_old :
+    boolRaw true true (.bool true) = true ∧
+    passRotated false [none] (boolProbeOld true true) false = false ∧
+    passRotated false [some (exact (colKeysDict [.bool true, .bool false]))] (boolProbeOld true true) false = false ∧
+    passUnrotatedOld [none] (boolProbeOld true true) = false := by decide
+
+/-- patch c03-E: a boolean comparison on a record that is not a boolean is `false`, where the OLD code returned an error
+(which stopped the dictionary word loop / the record loop of the block at that record); on booleans nothing changed -/
+theorem boolRaw_old (eq lit : Bool) (v : CVal) :
+    (boolRawOld eq lit v = none ↔ ∀ b, v ≠ .bool b) ∧ (∀ r, boolRawOld eq lit v = some r → boolRaw eq lit v = r) := by
+  cases v <;> simp [boolRawOld, boolRaw]
 
 /-- the in-place variant `addToBlockBloomBothCases` (work buffer = the value; array-dict keys and values): each
 lower-casing overwrites the head of the value, so the final "lower-cased full value" is wrong — for "Foo Bar" the key
@@ -367,10 +458,39 @@ theorem dictMatch_no_words_counterexample :
   have := h { wordFilter [] with words := [] } false { words := [[0]], recToWord := [0], badRec := false } 1
   revert this; decide
 
-/-- the guard of `dictMatch_eq_perRecordMatch` is satisfiable and the search is not vacuous: "foo" over the dictionary
-{"foo x" ↦ records 0 and 2, "bar" ↦ record 1} -/
 example : dictMatch (wordFilter [102, 111, 111]) false
     { words := [[SigModel.Tlv.tStr, 5, 0, 102, 111, 111, 32, 120], [SigModel.Tlv.tStr, 3, 0, 98, 97, 114]],
       recToWord := [0, 1, 0], badRec := false } 3 = [true, false, true] := by decide
+
+theorem recLoop_no_plain (negate : Bool) (i : Nat) (bits : List Bool) :
+    recLoop negate (fun _ => false) i bits = bits.map (fun b => b != negate) := by
+  induction bits generalizing i with
+  | nil => rfl
+  | cons b r ih => cases negate <;> cases b <;> simp [recLoop, ih]
+
+/-- C03.4 with negation (patch c03-D): a block whose searched column is dictionary-encoded gives, for a (possibly
+NEGATED) match filter with words, exactly the records of the answer — each record tested on its own, then negated —
+whether or not the block lies inside the query's time range -/
+theorem filterDictBlock_eq_answer (mf : MatchFilter) (ci : Bool) (d : DictRd) (recCount : Nat) (enclosed : Bool)
+    (h : mf.words ≠ []) :
+    filterDictBlock mf ci d recCount enclosed = (perRecordMatch mf ci d recCount).map (fun m => m != mf.negate) := by
+  unfold filterDictBlock
+  simp only [dictMatch_eq_perRecordMatch mf ci d recCount h]
+  split
+  · exact recLoop_no_plain _ _ _
+  · rename_i hc
+    have hn : mf.negate = false := by
+      cases hneg : mf.negate <;> simp_all
+    simp [hn]
+
+/-- OLD code (before c03-D): for a time-enclosed block the record loop — the only place where `NegateMatch` is
+applied — was skipped: `NOT zzz` over the dictionary {"zzz" ↦ record 0, "aaa" ↦ record 1} returned record 0. -/
+theorem filterDictBlockOld_negated_counterexample :
+    filterDictBlockOld { wordFilter [122, 122, 122] with negate := true } false
+      { words := [[SigModel.Tlv.tStr, 3, 0, 122, 122, 122], [SigModel.Tlv.tStr, 3, 0, 97, 97, 97]], recToWord := [0, 1], badRec := false } 2 true
+      = [true, false] ∧
+    filterDictBlock { wordFilter [122, 122, 122] with negate := true } false
+      { words := [[SigModel.Tlv.tStr, 3, 0, 122, 122, 122], [SigModel.Tlv.tStr, 3, 0, 97, 97, 97]], recToWord := [0, 1], badRec := false } 2 true
+      = [false, true] := by decide
 
 end SigModel.Props.C03
